@@ -14,6 +14,7 @@ import (
 	"strconv"
 	"strings"
 	"sync"
+	"time"
 
 	wt "github.com/hnakamur/whispertool"
 
@@ -44,7 +45,7 @@ func (c19) Meta() fw.Meta {
 			"strings in neither class (redundant leading zeros; fractional seconds, which the Go time parser accepts after the seconds field) are not judged for acceptance, only for the returned value when accepted",
 			"CLI flag value types are unexported; they are sampled through the real binary (printed method names, retention lists and timestamps must be accepted with their meaning, malformed/out-of-range ones rejected) and exercised further by C12/C16",
 		},
-		Obligations: []string{"duration_roundtrips", "timestamp_roundtrips", "list_roundtrips", "method_roundtrips", "duration_strings_accepted", "duration_strings_rejected", "mustreject_checked", "overflow_numerals_rejected", "archiveinfo_strings_accepted", "archiveinfo_nonmultiple_rejected", "timestamp_strings_accepted", "timestamp_out_of_range_rejected", "timestamp_bad_field_rejected", "timestamp_render_checked", "cli_flag_checks", "forwarded_requests_checked"},
+		Obligations: []string{"duration_roundtrips", "timestamp_roundtrips", "list_roundtrips", "method_roundtrips", "duration_strings_accepted", "duration_strings_rejected", "mustreject_checked", "overflow_numerals_rejected", "archiveinfo_strings_accepted", "archiveinfo_nonmultiple_rejected", "timestamp_strings_accepted", "timestamp_out_of_range_rejected", "timestamp_bad_field_rejected", "timestamp_render_checked", "cli_flag_checks", "forwarded_requests_checked", "cases_in_a_non_utc_zone"},
 		Exhaustive:  func(tier string) bool { return tier == "thorough" },
 	}
 }
@@ -315,6 +316,20 @@ func (c19) Run(c *fw.Ctx) {
 	}
 	idx := int64(c.Index)
 	rt := int64(0)
+	// the process's local time zone is an environment condition: printing and parsing are defined in UTC. A quarter of
+	// the cases (shards) runs east, a quarter west of Greenwich
+	switch c.Index % 4 {
+	case 2:
+		old := time.Local
+		time.Local = time.FixedZone("JST", 9*3600)
+		defer func() { time.Local = old }()
+		c.Count("cases_in_a_non_utc_zone", 1)
+	case 3:
+		old := time.Local
+		time.Local = time.FixedZone("PST", -8*3600)
+		defer func() { time.Local = old }()
+		c.Count("cases_in_a_non_utc_zone", 1)
+	}
 
 	// ---- round trips
 	if thorough {
@@ -524,6 +539,24 @@ func (c19) Run(c *fw.Ctx) {
 				}
 			}
 			stub.Close()
+		}
+		// an option given twice: the flag value is set twice, and after the second Set it means the second string
+		{
+			p := filepath.Join(dir, "flag-twice.wsp")
+			res := runCLI(c, "generate", "-dest", p, "-fill=false", "-agg-method", "max", "-agg-method", "sum", "-x-files-factor", "0.25", "-x-files-factor", "0.5",
+				"-retentions", "1m:2h", "-retentions", "1h:2d")
+			c.Count("cli_flag_checks", 1)
+			if res.Exit != 0 {
+				c.Violationf("cli-flag-set-twice", res.brief(), "generate with every option given twice exited %d", res.Exit)
+			} else if ph, _, _, err := rawOfFile(p); err != nil || ph.Method != 2 || ph.Count != 1 || ph.Steps[0] != 3600 || ph.Points[0] != 48 || ph.XffBits != math.Float32bits(0.5) {
+				c.Violationf("cli-flag-set-twice", fw.J{"run": res.brief(), "header": fmt.Sprintf("%+v", ph)}, "generate -retentions 1m:2h -retentions 1h:2d (and -agg-method max/sum, -x-files-factor 0.25/0.5) created a header that is not the meaning of the last values")
+			}
+			fx2 := filepath.Join(dir, "flag-1.wsp")
+			r2 := runCLI(c, "view", "-src-base", dir, "-src", filepath.Base(fx2), "-until", "2200-01-01T00:00:00Z", "-until", "2020-01-01T00:00:00Z", "-from", "2019-12-31T00:00:00Z", "-text-out", "")
+			c.Count("cli_flag_checks", 1)
+			if r2.Exit == 0 {
+				c.Violationf("cli-flag-timestamp-accepts", r2.brief(), "view accepted an out-of-range -until given before a valid one")
+			}
 		}
 		for _, bad := range []string{"1m:2h,", "+1m:2h", "1m:90s", "1m", "2147483648s:4294967296s", "1x:2y"} {
 			p := filepath.Join(dir, "flag-bad.wsp")
